@@ -911,6 +911,18 @@ class Engine:
             return a
         return self.mk_default(st, ty)
 
+    def int_to_char(self, st, v):
+        """`u8 as char` / char::from(u8): the char whose code point is the number"""
+        if v.sym is None:
+            return CharV(chr(v.k)) if 0 <= v.k <= 0x10ffff else CharV(None, next(_uid))
+        key = ('int2char', v.key())
+        ch = st.vn.get(key)
+        if ch is None:
+            ch = CharV(None, next(_uid), prov=('from-int', v.key()))
+            st.vn[key] = ch
+            st.vn[('char2int', ch.key())] = NumV(v.sym, v.k, 'u32')
+        return ch
+
     def char_num(self, st, v):
         """code point of a char value as a number (one symbol per unknown char)"""
         if v.known is not None:
@@ -966,6 +978,8 @@ class Engine:
         kind = rv['kind']
         to = rv['ty']
         if kind == 'IntToInt':
+            if isinstance(v, NumV) and to == 'char':
+                return self.int_to_char(st, v)
             if isinstance(v, NumV):
                 lo, hi = INT_RANGES.get(to, (None, None))
                 vlo, vhi = self.bounds(st, v)
